@@ -106,6 +106,8 @@ type RunResult struct {
 	Desc       interface{}    `json:"desc,omitempty"`
 	TapeLen    int            `json:"tape_len"`
 	Tape       []int          `json:"-"`
+	Sched      []int          `json:"-"`
+	Marks      []int          `json:"-"`
 	Infra      string         `json:"infra,omitempty"`
 	RaceFail   bool           `json:"race_fail,omitempty"`
 }
@@ -198,7 +200,9 @@ func execRun(t *testing.T, sc *Scenario, tape *simrt.Tape, seed, run uint64, tie
 		res.RaceFail = true
 	}
 	res.Tape = tape.Rec
-	res.TapeLen = len(tape.Rec)
+	res.Sched = tape.RecS
+	res.Marks = tape.Marks
+	res.TapeLen = len(tape.Rec) + len(tape.RecS)
 	return res
 }
 
@@ -261,6 +265,7 @@ type ReplayFile struct {
 	Tier      string      `json:"tier"`
 	Race      bool        `json:"race_binary"`
 	Tape      []int       `json:"tape"`
+	Sched     []int       `json:"sched"`
 	Violation Violation   `json:"violation"`
 	Digest    string      `json:"digest"`
 	Desc      interface{} `json:"scenario_decoded,omitempty"`
@@ -290,80 +295,101 @@ func hasSig(res *RunResult, sig string) bool {
 	return false
 }
 
-// shrink minimises the tape while the same violation signature persists.
-func shrink(t *testing.T, sc *Scenario, tape []int, sig string, tier string, budget time.Duration, maxCand int) ([]int, int) {
+type tapePair struct{ gen, sched []int }
+
+func (p tapePair) clone() tapePair {
+	return tapePair{append([]int(nil), p.gen...), append([]int(nil), p.sched...)}
+}
+
+// shrink minimises the two streams of a failing tape while the same violation
+// signature persists. The generation stream is shrunk first (fewer / smaller
+// operations), then the schedule stream (fewer preemptions: 0 = keep running).
+func shrink(t *testing.T, sc *Scenario, gen, sched []int, sig string, tier string, budget time.Duration, maxCand int) (tapePair, int) {
 	deadline := time.Now().Add(budget)
 	tries := 0
-	cur := append([]int(nil), tape...)
-	try := func(cand []int) bool {
+	cur := tapePair{gen, sched}.clone()
+	var marks []int
+	try := func(cand tapePair) bool {
 		if tries >= maxCand || time.Now().After(deadline) {
 			return false
 		}
 		tries++
-		r := execRun(t, sc, simrt.NewReplayTape(cand), 0, 0, tier, false)
+		r := execRun(t, sc, simrt.NewReplayTape(cand.gen, cand.sched), 0, 0, tier, false)
 		if r.Infra == "" && hasSig(r, sig) {
 			// canonical: what the run actually drew
-			cur = append([]int(nil), r.Tape...)
+			cur = tapePair{r.Tape, r.Sched}.clone()
+			marks = append([]int(nil), r.Marks...)
 			return true
 		}
 		return false
 	}
-	lower := func(from, to int) bool {
+	get := func(which int) []int {
+		if which == 0 {
+			return cur.gen
+		}
+		return cur.sched
+	}
+	with := func(which int, v []int) tapePair {
+		c := cur.clone()
+		if which == 0 {
+			c.gen = v
+		} else {
+			c.sched = v
+		}
+		return c
+	}
+	lower := func(which, from, to int) bool {
 		any := false
-		for i := from; i < to && i < len(cur) && tries < maxCand; i++ {
-			for cur[i] > 0 && tries < maxCand {
-				cand := append([]int(nil), cur...)
+		for i := from; i < to && i < len(get(which)) && tries < maxCand; i++ {
+			for i < len(get(which)) && get(which)[i] > 0 && tries < maxCand {
+				v := get(which)[i]
+				cand := append([]int(nil), get(which)...)
 				cand[i] = 0
-				if try(cand) {
+				if try(with(which, cand)) {
 					any = true
 					break
 				}
-				cand = append([]int(nil), cur...)
-				cand[i] = cur[i] / 2
-				if cand[i] == cur[i] || !try(cand) {
-					cand = append([]int(nil), cur...)
-					cand[i] = cur[i] - 1
-					if !try(cand) {
-						break
-					}
+				cand = append([]int(nil), get(which)...)
+				cand[i] = v / 2
+				if cand[i] != v && try(with(which, cand)) {
+					any = true
+					continue
+				}
+				cand = append([]int(nil), get(which)...)
+				cand[i] = v - 1
+				if !try(with(which, cand)) {
+					break
 				}
 				any = true
 			}
 		}
 		return any
 	}
-	improved := true
-	for improved && tries < maxCand && time.Now().Before(deadline) {
-		improved = false
-		// 0. the head of the tape holds sizes and counts: lower those first
-		if lower(0, 24) {
-			improved = true
-		}
-		// 1. truncate
-		for n := len(cur) / 2; n >= 1; n /= 2 {
-			for len(cur) > n && try(cur[:len(cur)-n]) {
-				improved = true
-			}
-		}
-		// 2. delete spans
-		for size := 16; size >= 1; size /= 2 {
-			for i := 3; i+size <= len(cur); {
-				cand := append(append([]int(nil), cur[:i]...), cur[i+size:]...)
-				if try(cand) {
-					improved = true
+	deleteSpans := func(which, start int) bool {
+		any := false
+		for size := 32; size >= 1; size /= 2 {
+			for i := start; i+size <= len(get(which)); {
+				c := get(which)
+				cand := append(append([]int(nil), c[:i]...), c[i+size:]...)
+				if try(with(which, cand)) {
+					any = true
 				} else {
 					i += size
 				}
 				if tries >= maxCand {
-					break
+					return any
 				}
 			}
 		}
-		// 3. zero spans
-		for size := 16; size >= 2; size /= 2 {
-			for i := 3; i+size <= len(cur); i += size {
+		return any
+	}
+	zeroSpans := func(which, start int) bool {
+		any := false
+		for size := 32; size >= 2; size /= 2 {
+			for i := start; i+size <= len(get(which)); i += size {
+				c := get(which)
 				allZero := true
-				for _, v := range cur[i : i+size] {
+				for _, v := range c[i : i+size] {
 					if v != 0 {
 						allZero = false
 					}
@@ -371,27 +397,94 @@ func shrink(t *testing.T, sc *Scenario, tape []int, sig string, tier string, bud
 				if allZero {
 					continue
 				}
-				cand := append([]int(nil), cur...)
+				cand := append([]int(nil), c...)
 				for j := i; j < i+size; j++ {
 					cand[j] = 0
 				}
-				if try(cand) {
-					improved = true
+				if try(with(which, cand)) {
+					any = true
 				}
 				if tries >= maxCand {
-					break
+					return any
 				}
 			}
 		}
-		// 4. lower the rest
-		if lower(24, len(cur)) {
+		return any
+	}
+	truncate := func(which int) bool {
+		any := false
+		for n := len(get(which)) / 2; n >= 1; n /= 2 {
+			for len(get(which)) > n && try(with(which, get(which)[:len(get(which))-n])) {
+				any = true
+			}
+		}
+		return any
+	}
+	deleteBlocks := func() bool {
+		any := false
+		for k := len(marks) - 1; k >= 0 && tries < maxCand; k-- {
+			if k >= len(marks) {
+				continue
+			}
+			from := marks[k]
+			to := len(cur.gen)
+			if k+1 < len(marks) {
+				to = marks[k+1]
+			}
+			if from >= to || to > len(cur.gen) {
+				continue
+			}
+			cand := append(append([]int(nil), cur.gen[:from]...), cur.gen[to:]...)
+			if try(with(0, cand)) {
+				any = true
+			}
+		}
+		return any
+	}
+	try(cur) // establishes the marks
+	improved := true
+	for improved && tries < maxCand && time.Now().Before(deadline) {
+		improved = false
+		if deleteBlocks() {
+			improved = true
+		}
+		// schedule first: an empty schedule stream is the non-preemptive run
+		if truncate(1) {
+			improved = true
+		}
+		if zeroSpans(1, 0) {
+			improved = true
+		}
+		// generation: sizes and counts at the head, then whole operations
+		if lower(0, 0, 16) {
+			improved = true
+		}
+		if truncate(0) {
+			improved = true
+		}
+		if deleteSpans(0, 3) {
+			improved = true
+		}
+		if zeroSpans(0, 3) {
+			improved = true
+		}
+		if lower(0, 16, 1<<30) {
+			improved = true
+		}
+		if deleteSpans(1, 0) {
+			improved = true
+		}
+		if lower(1, 0, 1<<30) {
 			improved = true
 		}
 	}
-	// strip trailing zeros
-	for len(cur) > 0 && cur[len(cur)-1] == 0 {
-		cur = cur[:len(cur)-1]
+	strip := func(v []int) []int {
+		for len(v) > 0 && v[len(v)-1] == 0 {
+			v = v[:len(v)-1]
+		}
+		return v
 	}
+	cur.gen, cur.sched = strip(cur.gen), strip(cur.sched)
 	return cur, tries
 }
 
